@@ -990,6 +990,7 @@ func main() {
 	runHugeSymbols()
 	runHintedQR()
 	runTexturedQR()
+	runHintedDM()
 	runHistory()
 	runSharedHints()
 	runZeroValueWriters()
